@@ -350,6 +350,20 @@ def check_programs(ctx):
         k += 1
         bad.append(("x%d" % k, "import ipv4;\nipv4::udp::unicast(1.2.3.4:9, 1.2.3.5:2, \"%s\");\n" % s[1].decode("utf-8"), ("parse",),
                     "string literal with a bad hex section"))
+        # the same literal written as adjacent pieces on several lines (blank, whitespace-only and comment lines between
+        # them): it is still one literal with a bad section
+        sp = litlib.quote_split(r, s[1].decode("utf-8"), 1.0)
+        bad.append(("y%d" % k, "import ipv4;\nipv4::udp::unicast(1.2.3.4:9, 1.2.3.5:2,\n%s\n);\n" % sp, ("parse",),
+                    "string literal with a bad hex section, written in pieces: %s" % sp))
+    # well-formed string literals written in pieces over several lines denote the bytes of the joined literal
+    glists = [litlib.rand_segs(r, quotable=True, maxsegs=3) for _ in range(60 if ctx.thorough else 20)]
+    for s in litlib.spec_batch(glists, "c17g"):
+        if not s[0] or s[2] == "REJECT" or not s[1]:
+            continue
+        k += 1
+        sp = litlib.quote_split(r, s[1].decode("utf-8"), 1.0)
+        good.append(prog_case("g%d" % k, pre + [Do(Call("ipv4::udp::unicast", SOCK("1.2.3.4:9"), SOCK("1.2.3.5:2"), STR(s[2], sp)))],
+                              kind="string literal in pieces read back from a payload", what=sp, want={"payload": s[2]}))
     diff.run_both(ctx, "c17", good)
     for c in good:
         ctx.count(c.gen["kind"])
